@@ -1,3 +1,91 @@
-From ZV Require Import Lib.Base Model.Query Model.Parser.
-Theorem C07_placeholder : True. Proof. exact I. Qed.
-Print Assumptions C07_placeholder.
+(** C07 - query parsing never crashes; every parsed query can be converted to the wire format and is
+    dispatched by the shard searcher's match-tree constructor.
+    Model: Model/Parser.v (byte-level parse.go in the outcome monad, checked slices, explicit fuel),
+    Generated/ParserTables.v (token numbers, prefix table, QToProto / newMatchTree case lists from the source).
+    The external engines (RegexpQuery's regexp/syntax, grafana regexp.Compile, language lookup,
+    Regexp.setCase(auto)) are universally quantified. *)
+From ZV Require Import Lib.Base Model.Query Generated.ParserTables Model.Parser Proofs.ParserTotal Proofs.ParserKinds.
+From Coq Require Import String.
+Open Scope N_scope.
+
+(** Parse yields a query or an (ordinary) error for EVERY byte string - never a panic (no slice or index
+    operation of parse.go can be out of range) and never the model's out-of-fuel artefact. *)
+Theorem C07_parse_never_panics :
+  forall (rq : str -> rqres) (rx_auto rcompile : str -> bool) (lang : str -> option str) (s : str),
+    (exists q, parse rq rx_auto rcompile lang s = Ok q) \/
+    (exists e, parse rq rx_auto rcompile lang s = Err e /\ e <> E_FUEL).
+Proof.
+  intros. pose proof (parse_fine rq rx_auto rcompile lang s) as H.
+  destruct (parse rq rx_auto rcompile lang s) as [q|e|w]; simpl in H; [left; eauto | right; eauto | contradiction].
+Qed.
+Print Assumptions C07_parse_never_panics.
+
+(** termination: the recursion parseExpr / parseExprList / its loop needs at most 3*|s|+3 nested calls;
+    with that fuel or any larger one the run is never cut short and never panics *)
+Theorem C07_parse_terminates_within_fuel :
+  forall (rq : str -> rqres) (rx_auto rcompile : str -> bool) (lang : str -> option str) (s : str) (fuel : nat),
+    (3 * List.length s + 3 <= fuel)%nat ->
+    match parse_with rq rx_auto rcompile lang fuel s with
+    | Ok _ => True
+    | Err e => e <> E_FUEL
+    | Panic _ => False
+    end.
+Proof. intros. apply parse_with_fine. exact H. Qed.
+Print Assumptions C07_parse_terminates_within_fuel.
+
+(** every query that parsing yields is converted by QToProto without reaching its
+    `panic("unknown query node")` default - the case list is regenerated from query_proto.go *)
+Theorem C07_parsed_convertible :
+  forall (rq : str -> rqres) (rx_auto rcompile : str -> bool) (lang : str -> option str) (s : str) (q : Q),
+    parse rq rx_auto rcompile lang s = Ok q -> to_proto q = Ok tt.
+Proof. exact parsed_convertible. Qed.
+Print Assumptions C07_parsed_convertible.
+
+(** PARTIAL for search/list: only the kind dispatch of indexData.newMatchTree (the place of its
+    log.Panicf) is modelled; every node of a parsed query hits a case of that type switch (case list
+    regenerated from index/matchtree.go, clauses with a conditional `break` counted as not handling).
+    The rest of Search/List and the JSON handlers are covered by the recover() oracle only. *)
+Theorem C07_parsed_searchable_kinds_partial :
+  forall (rq : str -> rqres) (rx_auto rcompile : str -> bool) (lang : str -> option str) (s : str) (q : Q),
+    parse rq rx_auto rcompile lang s = Ok q -> mt_kinds q = Ok tt.
+Proof. exact parsed_dispatchable. Qed.
+Print Assumptions C07_parsed_searchable_kinds_partial.
+
+(** setType ranges over Go maps in random order; at most one entry of [prefixes] can apply, so the
+    iteration order cannot change the token (and the model's first-hit-in-key-order is faithful) *)
+Theorem C07_prefix_map_order_irrelevant :
+  forall (inp : str) (p q : list N * N),
+    In p prefixes -> In q prefixes -> prefixb (fst p) inp = true -> prefixb (fst q) inp = true -> p = q.
+Proof. exact prefixes_unambiguous. Qed.
+Print Assumptions C07_prefix_map_order_irrelevant.
+
+(** ---- non-vacuity: concrete runs (engines: every text is a literal / compiles / unknown language) *)
+Definition ex_rq (t : str) : rqres := RQLit t.
+Definition ex_parse (s : string) : outcome Q := parse ex_rq (fun _ => false) (fun _ => true) (fun _ => None) (bs s).
+
+Example ex_meta : ex_parse "meta.k:v" = Ok (QMeta (bs "k") (bs "v")) /\ to_proto (QMeta (bs "k") (bs "v")) = Ok tt.
+Proof. split; vm_compute; reflexivity. Qed.
+Example ex_tree : ex_parse "a or (B -f:c)" =
+  Ok (QOr [QSubstring (bs "a") false false false;
+           QAnd [QSubstring (bs "B") true false false; QNot (QSubstring (bs "c") false true false)]]).
+Proof. vm_compute. reflexivity. Qed.
+Example ex_type_scope : ex_parse "type:repo a or b" =
+  Ok (QType 2 (QOr [QSubstring (bs "a") false false false; QSubstring (bs "b") false false false])).
+Proof. vm_compute. reflexivity. Qed.
+Example ex_neg_case : ex_parse "-case:yes" = Err E_NEG_DIRECTIVE. Proof. vm_compute. reflexivity. Qed.
+Example ex_neg_type : ex_parse "x -type:file" = Err E_NEG_DIRECTIVE. Proof. vm_compute. reflexivity. Qed.
+Example ex_unbalanced : ex_parse "(a b" = Err E_CLOSE_PAREN /\ ex_parse "a)" = Err E_EXTRA /\
+  ex_parse """a" = Err E_UNTERMINATED /\ ex_parse "a\" = Err E_LONE_BACKSLASH /\ ex_parse "a or" = Err E_OR_OPERAND.
+Proof. repeat split; vm_compute; reflexivity. Qed.
+(** the fuel bound is met with equality-sized inputs: deep nesting still parses *)
+Example ex_deep : ex_parse "( ( ( ( ( ( a))))))" = Ok (QSubstring (bs "a") false false false) /\ is_ok (ex_parse "----------a") = true.
+Proof. split; vm_compute; reflexivity. Qed.
+(** with too little fuel the model does report E_FUEL (the fuel theorem is not vacuous) *)
+Example ex_fuel_needed : parse_with ex_rq (fun _ => false) (fun _ => true) (fun _ => None) 5 (bs "( ( a))") = Err E_FUEL.
+Proof. vm_compute. reflexivity. Qed.
+(** the wire conversion does panic on the parse-time kinds, which is why the invariant matters *)
+Example ex_to_proto_panics : to_proto (QNot (QCase (bs "yes"))) = Panic 10 /\ mt_kinds (QCaseScope (QConst true)) = Panic 11.
+Proof. split; vm_compute; reflexivity. Qed.
+(** two prefixes of the table do apply to real inputs *)
+Example ex_prefix : In (bs "f:", tokFile) prefixes /\ prefixb (bs "f:") (bs "f:x") = true.
+Proof. split; vm_compute; tauto. Qed.
